@@ -202,7 +202,7 @@ def run_concurrent(spec, acc):
                     judge_concurrent(sim, stats, kind, msgs, pattern, [gap, 0], acc, fast_of)
         acc.set_exhaustive(f"{kind}: 2 concurrent messages x every pause/no-pause pattern over the first 6-8 writes x stagger 0/1/3", True)
         # (b) sampled: 2-4 messages incl. 32-frame ones, random pause lengths
-        for rep in range(25 if quick else 300):
+        for rep in range(25 if quick else 1500):
             msgs = make_messages(dbx, rng, rng.randint(2, 4), box)
             plan = [rng.choice([0, 0, 1, 2, 5]) for _ in range(120)]
             stagger = [rng.choice([0, 0, 1, 2, 7]) for _ in msgs]
@@ -336,7 +336,7 @@ def run_reconnect_during_send(spec, acc):
     quick = spec["tier"] == "quick"
     box, cleanup = install_stub()
     try:
-        for rep in range(40 if quick else 600):
+        for rep in range(40 if quick else 3000):
             nA, nB, nC = rng.choice([20, 27, 50]), rng.choice([13, 20, 40]), rng.choice([7, 13, 27])
             msgs = []
             for src, n in ((10, nA), (11, nB), (12, nC)):
